@@ -357,3 +357,78 @@ func init() {
 		Old: "\t\t\t\tp.transformFuncCall(m, fn)\n\t\t\t\tif p.isWrapFunctionType(ctx, fn.GlobalValueType()) {\n\t\t\t\t\tfns = append(fns, fn)\n\t\t\t\t}",
 		New: "\t\t\t\tif p.isWrapFunctionType(ctx, fn.GlobalValueType()) {\n\t\t\t\t\tp.transformFuncCall(m, fn)\n\t\t\t\t\tfns = append(fns, fn)\n\t\t\t\t}", Expect: "R09.9"})
 }
+
+// checkStagingAndTarErrors (R20.6): (a) the staging directory of a download is emptied RECURSIVELY before it
+// is used - a crashed earlier run may have left files that would be published with the new tree;
+// (b) a failure of the external tar is always an error - tar reports members it refused (names with ..) only
+// through its exit status.
+func checkStagingAndTarErrors(c *Ctx, p *packages.Package) {
+	c.Rule("R20.6", "the staging directory is wiped recursively before extraction, and a failing external tar is always reported as an error", 2)
+	info := p.TypesInfo
+	if fd := findFunc(p, "downloadAndExtractArchive"); fd == nil {
+		c.Undecided("R20.6", "crosscompile.downloadAndExtractArchive staging directory", 0, "function not found")
+	} else {
+		c.nfuncs++
+		g := buildCFG(p, fd)
+		isWipe := func(n ast.Node) bool {
+			return nodeHas(n, func(x ast.Node) bool {
+				call, ok := x.(*ast.CallExpr)
+				if !ok || !isCallTo(info, call, "os.RemoveAll") || len(call.Args) != 1 {
+					return false
+				}
+				return strings.Contains(strings.ToLower(exprStr(call.Args[0])), "temp")
+			})
+		}
+		isUse := func(n ast.Node) bool {
+			if _, isDefer := n.(*ast.DeferStmt); isDefer {
+				return false
+			}
+			return nodeHas(n, func(x ast.Node) bool {
+				call, ok := x.(*ast.CallExpr)
+				return ok && (isCallTo(info, call, "os.MkdirAll") || isCallTo(info, call, "internal/crosscompile.downloadFile"))
+			})
+		}
+		hit, reached := g.reach(g.entry(), isWipe, isUse, false, nil)
+		c.Check(!reached, "R20.6", "crosscompile.downloadAndExtractArchive wipes the staging directory recursively", fd.Pos(), "os.RemoveAll(tempDir) before it is (re)created",
+			"the staging directory is used ("+c.posStr(posOf(hit))+") without a recursive wipe: files left by an interrupted earlier run are published together with the new tree (os.Remove only deletes an empty directory)")
+	}
+	if fd := findFunc(p, "extractTarXz"); fd == nil {
+		c.Undecided("R20.6", "crosscompile.extractTarXz propagates tar's failure", 0, "function not found")
+	} else {
+		c.nfuncs++
+		// every return of the function either returns the Run() result itself or, on the err != nil branch, an error
+		bad := ""
+		runDirect := false
+		ast.Inspect(fd.Body, func(n ast.Node) bool {
+			r, ok := n.(*ast.ReturnStmt)
+			if !ok || len(r.Results) != 1 {
+				return true
+			}
+			if call, isCall := r.Results[0].(*ast.CallExpr); isCall {
+				if se, ok := call.Fun.(*ast.SelectorExpr); ok && se.Sel.Name == "Run" {
+					runDirect = true
+					return true
+				}
+			}
+			if isNilIdent(info, r.Results[0]) {
+				for _, cp := range pathConds(fd.Body, r) {
+					s := strings.ReplaceAll(exprStr(cp.cond), " ", "")
+					if cp.pol && (s == "err!=nil") {
+						bad = c.posStr(r.Pos())
+					}
+				}
+			}
+			return true
+		})
+		hasRun := strings.Contains(srcOf(fd.Body), ".Run()")
+		c.Check(hasRun && bad == "" && (runDirect || strings.Contains(srcOf(fd.Body), "err != nil")), "R20.6", "crosscompile.extractTarXz propagates tar's failure", fd.Pos(), "no `return nil` under err != nil",
+			"`return nil` at "+bad+" is reached although tar failed: tar reports a member it refused to extract (a name containing ..) only through its exit status, so an incomplete or hostile archive is published as a complete copy")
+	}
+}
+
+func init() {
+	addMutant(Mutant{Prop: "C20", Name: "staging-dir-remove-nonrecursive", File: "internal/crosscompile/fetch.go",
+		Old: "\ttempDir := destDir + \".temp\"\n\tos.RemoveAll(tempDir)", New: "\ttempDir := destDir + \".temp\"\n\tos.Remove(tempDir)", Expect: "R20.6 crosscompile.downloadAndExtractArchive"})
+	addMutant(Mutant{Prop: "C20", Name: "tarxz-previous-errors-swallowed", File: "internal/crosscompile/fetch.go",
+		Old: "\tcmd := exec.Command(\"tar\", \"-xf\", tarXzFile, \"-C\", dest)\n\treturn cmd.Run()", New: "\tcmd := exec.Command(\"tar\", \"-xf\", tarXzFile, \"-C\", dest)\n\tif err := cmd.Run(); err != nil {\n\t\tif strings.HasSuffix(err.Error(), \"2\") {\n\t\t\treturn nil\n\t\t}\n\t\treturn err\n\t}\n\treturn nil", Expect: "R20.6 crosscompile.extractTarXz"})
+}
